@@ -484,7 +484,7 @@ func sampledCase(st *ev.Stats, c SampledCase) error {
 
 func TestSampled(t *testing.T) {
 	st := ev.G()
-	st.SetRapid(4000, 150000, 1)
+	st.SetRapid(40000, 400000, 1)
 	rapid.Check(t, func(t *rapid.T) {
 		sc := gen.GenSchema(t, gen.SchemaOpts{NoAfter: true})
 		c := SampledCase{Schema: sc}
